@@ -1,5 +1,137 @@
 import ScenicModel.Model.Expr
+/-!
+# C05 — the fragment on which `forest_eval_eq_python` is proved
+
+`supportedB T env e` is a *checkable* predicate (the driver evaluates it for every generated case, so the evidence
+shows how much of the explored input space lies inside the proved fragment).  It excludes exactly the places
+where the model itself shows that Scenic's forest and plain Python differ, plus a few shapes whose proof was
+not attempted (each marked "not attempted").
+-/
 namespace Scenic.Expr
-/-- (temporary stub) -/
-def supportedB (_T : Tables) (_env : Env) (_e : Expr) : Bool := true
+
+/-- `first.__op__(rest)` with the `NotImplemented` fallback differs from Python's `first op rest`:
+    `tuple.__add__(Vector)` raises instead of deferring to `Vector.__radd__`, and `tuple` has no `__sub__`. -/
+def fwdProblem (op : BinOp) (a b : Val) : Bool :=
+  match a, b with
+  | .seq _ _, .vec .. => op == .add || op == .sub
+  | _, _ => false
+
+/-- `x.__rop__(c)` with the fallback differs from Python's `c op x`: sequences and strings have no `__radd__` /
+    `__rsub__` attribute. -/
+def reflProblem (op : BinOp) (c x : Val) : Bool :=
+  match x, c with
+  | .seq _ _, .seq _ _ => op == .add
+  | .str _, .str _ => op == .add
+  | .seq _ _, .vec .. => op == .add || op == .sub
+  | _, _ => false
+
+/-- the sampled operands of an OperatorDistribution are combined as plain Python would combine them -/
+def dispOK (T : Tables) (refl : Bool) (op : BinOp) (first rest : Val) : Bool :=
+  T.pythonDispatch || !(if refl then reflProblem op rest first else fwdProblem op first rest)
+
+/-- a condition on the sampled values of two nodes (vacuous when one of them raises) -/
+def valsOK (T : Tables) (env : Env) (n m : Node) (p : Val → Val → Bool) : Bool :=
+  match evalNode T env n, evalNode T env m with
+  | some a, some b => p a b
+  | _, _ => true
+
+def evalsSome (T : Tables) (env : Env) (n : Node) : Bool := (evalNode T env n).isSome
+
+/-- an all-zero tuple/list with fewer than three elements: the decorated `Vector.__add__` returns `self`,
+    the undecorated method (used by VectorMethodDistribution) raises IndexError -/
+def shortZero : Val → Bool
+  | .seq _ xs => allZero xs && xs.length < 3
+  | _ => false
+
+/-- `VectorDistribution.__op__(self, arg)`: excluded are the operands for which the handler raises AttributeError
+    while compiling (a constant that is not a Vector, unless the handler accepts sequences) and raw tuples
+    containing random values (they are not sampled by VectorOperatorDistribution). -/
+def vhZeroArgOK (T : Tables) (arg : Node) : Bool :=
+  match arg with
+  | .const v => T.vecHandlerAcceptsSeq || (isZero3 v).isSome
+  | _ => false
+
+def vhOK (T : Tables) (op : BinOp) (refl : Bool) (arg : Node) : Bool :=
+  !arg.isRaw && (vecOpsLookup T op refl).all fun zeroIdentity => !(zeroIdentity && !arg.isLazy) || vhZeroArgOK T arg
+
+/-- `Vector.__op__(self, arg)` for a Vector `self` (constant or with random coordinates) -/
+def vecCoreOK (T : Tables) (env : Env) (op : BinOp) (refl : Bool) (self arg : Node) : Bool :=
+  if !vecHas op refl then
+    (if arg.isDist && !refl then !arg.isVecDist && valsOK T env arg self (fun x c => dispOK T true op x c) else true)
+  else if arg.isLazy then
+    (match self with
+     | .const _ => !refl && valsOK T env self arg (fun _ b => !shortZero b)
+     | _ => true)
+  else arg.isConst
+
+def vecHelperOK (T : Tables) (env : Env) (op : BinOp) (refl : Bool) (self arg : Node) : Bool :=
+  vecCoreOK T env op (if op == .mul then false else refl) self arg
+
+/-- `c op r` for a constant `c` that is not a Vector -/
+def constLeftOK (T : Tables) (env : Env) (op : BinOp) (l r : Node) : Bool :=
+  if r.isVecDist then r.vty == .vector && vhOK T op true l
+  else if r.isDist then valsOK T env r l (fun x c => dispOK T true op x c)
+  else match r with
+    | .vecOf .. => vecHelperOK T env op true r l
+    | .rawt .. => false              -- arithmetic on raw tuples: not attempted
+    | _ => true
+
+def binGenOK (T : Tables) (env : Env) (op : BinOp) (l r : Node) : Bool :=
+  if l.isVecDist then l.vty == .vector && vhOK T op false r
+  else if l.isDist then valsOK T env l r (fun a b => dispOK T false op a b)
+  else match l with
+    | .vecOf .. => vecHelperOK T env op false l r
+    | .const (.vec ..) => vecHelperOK T env op false l r
+    | .const (.str _) => op != .mod && constLeftOK T env op l r     -- `str % x` formats x: outside the model
+    | .const _ => constLeftOK T env op l r
+    | .rawt .. => false            -- arithmetic on raw tuples: not attempted
+    | _ => true
+
+/-- the side condition of `forest_eval_eq_python` at a binary operator, on the built operands -/
+def binOK (T : Tables) (env : Env) (op : BinOp) (l r : Node) : Bool :=
+  match l, r with
+  | .fail, _ => true
+  | _, .fail => true
+  | .const _, .const _ => true
+  | l, r => binGenOK T env op l r
+
+/-- indexing: a container that is not a Distribution must be indexed by a constant (Python's own `tuple.__getitem__`
+    rejects a Distribution), and all its elements must evaluate (Scenic only evaluates the selected one) -/
+def getitemOK (T : Tables) (env : Env) (obj idx : Node) : Bool :=
+  obj.isFail || idx.isFail || obj.isDist || (idx.isConst && (obj.isConst || evalsSome T env obj))
+
+/-- `len` / attribute access on a raw tuple or a Vector with random coordinates: all elements must evaluate -/
+def lazyOK (T : Tables) (env : Env) (n : Node) : Bool :=
+  match n with
+  | .rawt .. | .vecOf .. => evalsSome T env n
+  | _ => true
+
+/-- `*v` where `v` is a Vector with random coordinates is rejected by `wrapStarredValue` -/
+def starOK (n : Node) : Bool :=
+  match n with
+  | .vecOf .. => false
+  | _ => true
+
+mutual
+  /-- the fragment on which `forest_eval_eq_python` is proved -/
+  def supportedB (T : Tables) (env : Env) : Expr → Bool
+    | .const _ => true
+    | .leaf _ _ => true
+    | .bin op l r => supportedB T env l && supportedB T env r && binOK T env op (build T l) (build T r)
+    | .un _ e => supportedB T env e
+    | .getitem e i => supportedB T env e && supportedB T env i && getitemOK T env (build T e) (build T i)
+    | .len e => supportedB T env e && lazyOK T env (build T e)
+    | .attr e _ => supportedB T env e && lazyOK T env (build T e)
+    | .mkseq _ es => supportedList T env es
+    | .mkvec x y z => supportedB T env x && supportedB T env y && supportedB T env z
+    | .call _ args => supportedArgs T env args
+  def supportedList (T : Tables) (env : Env) : List Expr → Bool
+    | [] => true
+    | e :: rest => supportedB T env e && supportedList T env rest
+  def supportedArgs (T : Tables) (env : Env) : List Arg → Bool
+    | [] => true
+    | .pos e :: rest => supportedB T env e && supportedArgs T env rest
+    | .star e :: rest => supportedB T env e && starOK (build T e) && supportedArgs T env rest
+end
+
 end Scenic.Expr
